@@ -73,7 +73,20 @@ def gen(ctx):
     out = []
     for _ in range(ctx.n(80, 600)):
         n = rng.randint(2, 9)
-        kind = rng.choice(["corr", "corr", "signed", "zerodiag", "asym"])
+        kind = rng.choice(["corr", "corr", "signed", "zerodiag", "asym",
+                           "undefined"])
+        if kind == "undefined":
+            # the similarity of a constant series (a masked grid point) with
+            # anything is undefined: nan entries never exceed a threshold
+            S = similarity(rng, n, "corr")
+            k = rng.randrange(n)
+            S[k, :] = S[:, k] = np.nan
+            S[k, k] = rng.choice([1.0, np.nan])
+            out.append({"S": S, "kind": kind, "grid": grid(rng, n),
+                        "directed": False,
+                        "ops": [rng.choice(["thr", "nl", "thr"])
+                                for _ in range(rng.randint(1, 5))]})
+            continue
         out.append({"S": similarity(rng, n, kind), "kind": kind,
                     "grid": grid(rng, n),
                     "directed": kind == "asym",
@@ -188,7 +201,7 @@ def run_case(ctx, c, terms=None):
                     ctx.violation("ClimateNetwork.set_threshold",
                                   "raising the threshold added a link", k2, {})
             prevA, prevthr, prevnl = A, thr, net.non_local()
-            if terms is not None:
+            if terms is not None and not np.isnan(W).any():
                 terms["adj"].append(f"({mq(W)}, {ql(thr)}, {bm(A)})")
                 terms["adj_meta"].append(k2)
     ctx.sample({"n": n, "kind": c["kind"], "ops": c["ops"]})
